@@ -37,9 +37,13 @@ Definition cid_eqb (a b : cid) : bool :=
 
 (** * the rectangular geometry *)
 Record rgeo := mkRgeo {
-  gox : Qc; goy : Qc; goz : Qc;                  (* origin: lower-left corner, top elevation *)
+  gox : Qc; goy : Qc; goz : Qc;                  (* position of the first node (lower-left corner), top elevation *)
+  gax : Qc; gay : Qc;                            (* orientation: the unit vector the x-axis of the mesh points along
+                                                    (rotate(theta): (cos theta, -sin theta)); the y-axis is (-gay, gax) *)
   gdx : list Qc; gdy : list Qc; gdz : list Qc;   (* spacings; gdz from the top down *)
   gatm : nat; gatmvol : Qc; gatmconn : Qc;       (* atmosphere_type, atmosphere_volume, atmosphere_connection *)
+  gatmz : Qc;                                    (* elevation of the atmosphere layer (the centres of type-1 atmosphere blocks);
+                                                    = goz in a geometry made by mulgrid.rectangular *)
   gsurf : nat -> nat -> Qc                       (* surface elevation of column (i, j) *)
 }.
 Definition nx (g : rgeo) := length (gdx g).
@@ -47,10 +51,13 @@ Definition ny (g : rgeo) := length (gdy g).
 Definition nz (g : rgeo) := length (gdz g).
 Definition dxi (g : rgeo) i := nth i (gdx g) 0.
 Definition dyj (g : rgeo) j := nth j (gdy g) 0.
-Definition xlo (g : rgeo) i := gox g + qsum (firstn i (gdx g)).
-Definition ylo (g : rgeo) j := goy g + qsum (firstn j (gdy g)).
-Definition ccx (g : rgeo) i := xlo g i + dxi g i * half.          (* column centre *)
+(** column centres in the mesh's own axes, and in the world *)
+Definition xlo (g : rgeo) i := qsum (firstn i (gdx g)).
+Definition ylo (g : rgeo) j := qsum (firstn j (gdy g)).
+Definition ccx (g : rgeo) i := xlo g i + dxi g i * half.
 Definition ccy (g : rgeo) j := ylo g j + dyj g j * half.
+Definition px (g : rgeo) i j := gox g + ccx g i * gax g - ccy g j * gay g.
+Definition py (g : rgeo) i j := goy g + ccx g i * gay g + ccy g j * gax g.
 Definition area (g : rgeo) i j := dxi g i * dyj g j.
 (** layer k (k >= 1): bottom, thickness, top, centre; layer 0 is the flat atmosphere layer *)
 Definition bot (g : rgeo) k := goz g - qsum (firstn k (gdz g)).
@@ -84,7 +91,7 @@ Record linkrec := mkLink { la : cid; lb : cid; ldir : nat; lda : Qc; ldb : Qc; l
 Definition atm_cells (g : rgeo) : list cellrec :=
   match gatm g with
   | 0%nat => [mkCell Atm0 (gatmvol g) None]
-  | 1%nat => map (fun c => mkCell (Cell 0 (fst c) (snd c)) (gatmvol g) (Some (ccx g (fst c), ccy g (snd c), goz g)))
+  | 1%nat => map (fun c => mkCell (Cell 0 (fst c) (snd c)) (gatmvol g) (Some (px g (fst c) (snd c), py g (fst c) (snd c), gatmz g)))
                  (colidx (nx g) (ny g))
   | _ => []
   end.
@@ -92,7 +99,7 @@ Definition atm_cells (g : rgeo) : list cellrec :=
 Definition layer_cols (g : rgeo) (k : nat) : list (nat * nat) :=
   filter (fun c => has g k (fst c) (snd c)) (colidx (nx g) (ny g)).
 Definition rock_cell (g : rgeo) (k : nat) (c : nat * nat) : cellrec :=
-  mkCell (Cell k (fst c) (snd c)) (volume g k (fst c) (snd c)) (Some (ccx g (fst c), ccy g (snd c), zc g k (fst c) (snd c))).
+  mkCell (Cell k (fst c) (snd c)) (volume g k (fst c) (snd c)) (Some (px g (fst c) (snd c), py g (fst c) (snd c), zc g k (fst c) (snd c))).
 Definition rock_cells (g : rgeo) : list cellrec :=
   flat_map (fun k => map (rock_cell g k) (layer_cols g k)) (seq 1 (nz g)).
 Definition cells (g : rgeo) : list cellrec := atm_cells g ++ rock_cells g.
@@ -128,10 +135,13 @@ Definition layer_links (g : rgeo) (k : nat) : list linkrec :=
   cat_some (map (vlink g k) (layer_cols g k)) ++ xlinks g k ++ ylinks g k.
 Definition links (g : rgeo) : list linkrec := flat_map (layer_links g) (seq 1 (nz g)).
 
-(** match_position, unrotated: the heading of (last block of the direction-1 track - origin block).
-    [PosNaN]: the zero vector (0/0 in vector_heading).  [PosRotated]: any other direction than +x
-    (asin / sin / cos are outside the exact model). *)
-Inductive posres := PosXY (x y : Qc) | PosNaN | PosRotated.
+(** match_position: position of the first node and orientation (unit vector of the mesh's x-axis) of the
+    new geometry.  [PosNaN]: the heading of the zero vector (0/0 in vector_heading). *)
+Inductive posres := PosAx (x y ax ay : Qc) | PosNaN.
+Definition pos_x (p : posres) : Qc := match p with PosAx x _ _ _ => x | _ => 0 end.
+Definition pos_y (p : posres) : Qc := match p with PosAx _ y _ _ => y | _ => 0 end.
+Definition pos_ax (p : posres) : Qc := match p with PosAx _ _ a _ => a | _ => 1 end.
+Definition pos_ay (p : posres) : Qc := match p with PosAx _ _ _ b => b | _ => 0 end.
 
 (** * grids and rectgeo over an abstract key type *)
 Section Model.
@@ -351,8 +361,44 @@ Record result := mkResult {
 
 Definition list_surf (nx' : nat) (l : list Qc) (dflt : Qc) : nat -> nat -> Qc := fun i j => nth (j * nx' + i) l dflt.
 
-(** find_surface for one column (remove_inactive = False) of the new geometry g' (already translated) *)
-Definition find_col_surface (g : grid) (g' : rgeo) (bm : list (K * K)) (av : Qc) (nm' : cid -> K) (c : nat * nat) : res Qc :=
+Definition key_in (k : K) (l : list K) : bool := existsb (keqb k) l.
+
+(** find_surface: [remove_blocks] = every block from the first one of non-positive volume on, in
+    block-list order, when remove_inactive is set *)
+Fixpoint rm_scan (rminact : bool) (inact : bool) (l : list block) : list K :=
+  match l with
+  | [] => []
+  | b :: r => let inact' := inact || (rminact && qle (bvol b) 0) in
+              (if inact' then [bkey b] else []) ++ rm_scan rminact inact' r
+  end.
+Definition remove_blocks (rminact : bool) (g : grid) : list K := rm_scan rminact false (blocks g).
+Fixpoint index_of (k : K) (l : list block) : option nat :=
+  match l with
+  | [] => None
+  | b :: r => if keqb (bkey b) k then Some 0%nat else match index_of k r with Some i => Some (S i) | None => None end
+  end.
+Fixpoint del_nth {A} (i : nat) (l : list A) : option (list A) :=
+  match l, i with
+  | [], _ => None
+  | _ :: r, O => Some r
+  | a :: r, S i' => match del_nth i' r with Some r' => Some (a :: r') | None => None end
+  end.
+(** [for blk in remove_col: i = colblocks.index(blk); del colblocks[i]; del layerthicks[i]] *)
+Fixpoint remove_all (rc : list block) (cb : list block) (lt : list Qc) : res (list block * list Qc) :=
+  match rc with
+  | [] => Ok (cb, lt)
+  | b :: r =>
+      match index_of (bkey b) cb with
+      | None => Raise ValueError
+      | Some i => match del_nth i cb, del_nth i lt with
+                  | Some cb', Some lt' => remove_all r cb' lt'
+                  | _, _ => Raise IndexError
+                  end
+      end
+  end.
+
+(** find_surface for one column of the new geometry g' (already translated); [rm] = remove_blocks *)
+Definition find_col_surface (g : grid) (g' : rgeo) (bm : list (K * K)) (av : Qc) (nm' : cid -> K) (rm : list K) (c : nat * nat) : res Qc :=
   let (i, j) := c in
   match lookup (nm' (Cell (nz g') i j)) bm with
   | None => Raise KeyError
@@ -363,14 +409,19 @@ Definition find_col_surface (g : grid) (g' : rgeo) (bm : list (K * K)) (av : Qc)
           do t <- track (fuel_of g) g 3 (Some av) bottom_block None None;
           match last_of (fst t) with
           | None => Ok (gsurf g' i j)                          (* [if colblocks:] fails: surface stays *)
-          | Some topblock =>
-              do zc <- cen_z topblock;
-              if qlt 0 (bvol topblock) then
-                let block_height := bvol topblock / area g' i j in
-                let lt := match last_of (snd t) with Some x => x | None => block_height end in
-                if qle block_height lt then Ok (zc + half * block_height)
-                else Ok (zc - half * lt + block_height)
-              else match last_of (snd t) with Some x => Ok (zc + half * x) | None => Raise IndexError end
+          | Some _ =>
+              do r <- remove_all (filter (fun b => key_in (bkey b) rm) (fst t)) (fst t) (snd t);
+              match last_of (fst r) with
+              | None => Raise IndexError                       (* colblocks[-1] of an emptied list *)
+              | Some topblock =>
+                  do zc <- cen_z topblock;
+                  if qlt 0 (bvol topblock) then
+                    let block_height := bvol topblock / area g' i j in
+                    let lt := match last_of (snd r) with Some x => x | None => block_height end in
+                    if qle block_height lt then Ok (zc + half * block_height)
+                    else Ok (zc - half * lt + block_height)
+                  else match last_of (snd r) with Some x => Ok (zc + half * x) | None => Raise IndexError end
+              end
           end
       end
   end.
@@ -382,22 +433,17 @@ Definition snap_surface (g' : rgeo) (snap : Qc) (s : Qc) : Qc :=
     if qlt (s - bot g' toplayer) snap then bot g' toplayer else s
   else s.
 
-Definition key_in (k : K) (l : list K) : bool := existsb (keqb k) l.
-
 (** rectgeo(origin_block = None, atmos_volume = av, remove_inactive = False, atmos_type = atm',
     layer_snap = snap, <naming of the new geometry> = nm') *)
-Definition heading_class (vx vy : Qc) : nat :=      (* 0: zero vector (NaN); 1: along +x; 2: along +y; 3: other *)
-  if qle vx 0 && qle 0 vx && qle vy 0 && qle 0 vy then 0%nat
-  else if qlt 0 vx && qle vy 0 && qle 0 vy then 1%nat
-  else if qlt 0 vy && qle vx 0 && qle 0 vx then 2%nat
-  else 3%nat.
-(** match_position: the horizontal position and the top elevation of the new geometry
-    (rectangular(spacings) at the origin, rotated, translated by ob.centre - centre of its first
-    bottom block).
-    [fxp = false]: the code as it stands (heading of the direction-1 track, 0/0 for a single block);
-    [fxp = true]: the proposed repair C18-single-block-direction-1 (a single-block direction-1 track
-    falls back to the direction-2 track, whose heading is that of direction 1 minus 90 degrees) *)
-Definition match_position (fxp : bool) (g : grid) (ob : block) (s1 s2 s3 : list Qc) : res (posres * Qc) :=
+(** match_position: the horizontal position, orientation and top elevation of the new geometry
+    (rectangular(spacings) at the origin, rotated about (0, 0) so that its x-axis points along the
+    heading of the direction-1 track, translated by ob.centre - centre of its first bottom block).
+    [heading vx vy]: the unit vector along (vx, vy), [None] for the zero vector -- the exact counterpart
+    of vector_heading / degrees / rotate (asin, sin, cos in floating point stay in the correspondence).
+    [fxp = true]: the code as it stands since 0d340ee (a single-block direction-1 track falls back to the
+    direction-2 track, whose heading is that of direction 1 minus 90 degrees); [fxp = false]: before. *)
+Definition match_position (heading : Qc -> Qc -> option (Qc * Qc)) (fxp : bool) (g : grid) (ob : block) (s1 s2 s3 : list Qc)
+  : res (posres * Qc) :=
   do t1 <- track (fuel_of g) g 1 None ob None None;
   let use2 := fxp && (length (fst t1) <=? 1)%nat in
   do t2 <- (if use2 then track (fuel_of g) g 2 None ob None None else Ok t1);
@@ -406,45 +452,46 @@ Definition match_position (fxp : bool) (g : grid) (ob : block) (s1 s2 s3 : list 
       match bcen bl with
       | None => Raise TypeError
       | Some (lx, ly, _) =>
-          let vx := lx - obx in let vy := ly - oby in
-          let g0 := mkRgeo 0 0 0 s1 s2 s3 0 0 0 (fun _ _ => 0) in
+          let g0 := mkRgeo 0 0 0 1 0 s1 s2 s3 0 0 0 0 (fun _ _ => 0) in
           let tz := obz - lcen g0 (nz g0) in
-          let hc := heading_class vx vy in
-          Ok (if (hc =? 0)%nat then PosNaN
-              else if (hc =? (if use2 then 2 else 1))%nat then PosXY (obx - ccx g0 0) (oby - ccy g0 0)
-              else PosRotated, tz)
+          Ok (match heading (lx - obx) (ly - oby) with
+              | None => PosNaN
+              | Some (ux, uy) =>
+                  let ax := if use2 then uy else ux in
+                  let ay := if use2 then - ux else uy in
+                  PosAx (obx - (ccx g0 0 * ax - ccy g0 0 * ay)) (oby - (ccx g0 0 * ay + ccy g0 0 * ax)) ax ay
+              end, tz)
       end
   | _, _ => Raise TypeError
   end.
 
 (** find_surface, snap_columns_to_layers, pruning of the block map *)
-Definition finish (g : grid) (av snap : Qc) (atm' : nat) (nm' : cid -> K) (s1 s2 s3 : list Qc) (log : list (K * K))
+Definition finish (g : grid) (av snap : Qc) (atm' : nat) (nm' : cid -> K) (rm : list K) (s1 s2 s3 : list Qc) (log : list (K * K))
            (pos : posres) (tz : Qc) : res result :=
-  (* the new geometry, translated; default surface = top elevation *)
-  let x0 := match pos with PosXY x _ => x | _ => 0 end in
-  let y0 := match pos with PosXY _ y => y | _ => 0 end in
-  let g1 := mkRgeo x0 y0 tz s1 s2 s3 atm' 0 0 (fun _ _ => tz) in
-  do surf <- mapM (find_col_surface g g1 log av nm') (colidx (nx g1) (ny g1));
+  (* the new geometry, rotated and translated; default surface = top elevation *)
+  let g1 := mkRgeo (pos_x pos) (pos_y pos) tz (pos_ax pos) (pos_ay pos) s1 s2 s3 atm' 0 0 tz (fun _ _ => tz) in
+  do surf <- mapM (find_col_surface g g1 log av nm' rm) (colidx (nx g1) (ny g1));
   let surf' := map (snap_surface g1 snap) surf in
-  let g2 := mkRgeo x0 y0 tz s1 s2 s3 atm' 0 0 (list_surf (nx g1) surf' tz) in
+  let g2 := mkRgeo (pos_x pos) (pos_y pos) tz (pos_ax pos) (pos_ay pos) s1 s2 s3 atm' 0 0 tz (list_surf (nx g1) surf' tz) in
   let names := map (fun c => nm' (cc c)) (cells g2) in
   Ok (mkResult s1 s2 s3 pos tz surf' (filter (fun p => key_in (fst p) names) log)).
 
-(** rectgeo(origin_block = None, atmos_volume = av, remove_inactive = False, atmos_type = atm',
+(** rectgeo(origin_block = obk, atmos_volume = av, remove_inactive = rminact, atmos_type = atm',
     layer_snap = snap, <naming of the new geometry> = nm') *)
-Definition rectgeo (fxp fx2 : bool) (g : grid) (av snap : Qc) (atm' : nat) (nm' : cid -> K) : res result :=
+Definition rectgeo (heading : Qc -> Qc -> option (Qc * Qc)) (fxp fx2 : bool) (g : grid) (obk : option K) (av : Qc) (rminact : bool)
+           (snap : Qc) (atm' : nat) (nm' : cid -> K) : res result :=
   if negb (forallb (fun b => negb (vol_ok (Some av) (bvol b)) || match bcen b with Some _ => true | None => false end) (blocks g))
   then Raise PlainException
   else
-  match find_origin_block g with
-  | None => Raise ValueError
-  | Some ob =>
-      do sp <- block_spacings fx2 g ob av;
-      let '(s1, s2, s3) := sp in
-      do log <- block_mapping g ob (length s1) (length s2) (length s3) av atm' nm';
-      do pt <- match_position fxp g ob s1 s2 s3;
-      finish g av snap atm' nm' s1 s2 s3 log (fst pt) (snd pt)
-  end.
+  do ob <- match obk with
+           | Some k => match find_block g k with Some b => Ok b | None => Raise KeyError end     (* self.block[origin_block] *)
+           | None => match find_origin_block g with Some b => Ok b | None => Raise ValueError end
+           end;
+  do sp <- block_spacings fx2 g ob av;
+  let '(s1, s2, s3) := sp in
+  do log <- block_mapping g ob (length s1) (length s2) (length s3) av atm' nm';
+  do pt <- match_position heading fxp g ob s1 s2 s3;
+  finish g av snap atm' nm' (remove_blocks rminact g) s1 s2 s3 log (fst pt) (snd pt).
 
 End Model.
 
